@@ -92,3 +92,9 @@ kanirun.META["C15"] = {
     "outside": "the notify watcher thread and OS-level CPU accounting (used only in the native replay); more than one cache per process",
     "assumptions": COMMON_ASSUME + ["crossbeam Select::ready returns when an operation is ready OR its channel is disconnected (documented); fair choice among several ready operations"],
 }
+
+kanirun.META["C14"] = {
+    "bounds": "kernel: two reloader identities, every nesting of depth 3 over {record(r1), record(r2), no_record}, five reads each issued by either reloader (2^5 x 3^3 programs); file / directory / asset record kinds; cache level: see harness list",
+    "outside": "helper threads (the thread-local is a plain static in Kani: 'another thread' = 'no active record'); panics (no unwinding in Kani); nesting deeper than 3",
+    "assumptions": COMMON_ASSUME,
+}
